@@ -3,6 +3,21 @@ import DdsModel.Header
 import DdsModel.Proofs.Layout
 namespace Dds
 
+/-! ### accepted DXGI codes (the runs are translated from the source: `SrcTables.dxgiValidRanges`) -/
+
+theorem any_inR_lt {l : List (Nat × Nat)} {v n : Nat}
+    (h : (l.any fun r => inR v r.1 r.2) = true) (hb : (l.all fun r => decide (r.2 < n)) = true) : v < n := by
+  rw [List.any_eq_true] at h
+  obtain ⟨r, hr, h1⟩ := h
+  have h2 := List.all_eq_true.mp hb r hr
+  simp only [inR, Bool.and_eq_true, decide_eq_true_eq] at h1 h2
+  omega
+
+/-- every accepted DXGI code fits the `u8` of `DxgiFormat(u8)`: `value as u8` in `try_from` does not truncate
+(complete evaluation over the translated runs, so re-checked whenever the source's pattern changes) -/
+theorem dxgiValid_lt256 {c : Nat} (h : dxgiValid c = true) : c < 256 :=
+  any_inR_lt h (by decide)
+
 /-! ### raw header -/
 
 theorem RawHeader.read_write (r : RawHeader) (hc : r.Consistent) (rest : List Nat) :
@@ -835,10 +850,7 @@ theorem Header.toRaw_inRange (pi : Header → Option PixelInfo) (h : Header) (hw
       | none => decide
       | some v => rw [hd] at h3; exact h3
     have hdx : x.dxgiFormat < U32 := by
-      have : x.dxgiFormat ≤ 191 := by
-        simp only [dxgiValid, inR, Bool.or_eq_true, Bool.and_eq_true, decide_eq_true_eq,
-          beq_iff_eq] at hv
-        omega
+      have : x.dxgiFormat < 256 := dxgiValid_lt256 hv
       unfold U32; omega
     have hdim := x.resourceDimension.toU32_lt
     have hal : x.alphaMode.toU32 < U32 := by have := x.alphaMode.toU32_lt; unfold U32; omega
